@@ -116,6 +116,15 @@ def obligations(bits):
     O.append(('pow', 'finite non-zero base, exponent -0', (FINNZ, {1: NZ}), ('point', 1.0), 'pow(x, -0) = 1 exactly for finite non-zero x'))
     O.append(('pow', 'negative base, non-integer exponent', (F([], (-MAX, -TINY)), {1: (F([], (-MAX, -TINY), (TINY, MAX)), 'nonint')}), only('N'), 'pow of a negative base with a finite non-integer exponent is NaN'))
     O.append(('pow', 'NaN base, non-zero exponent', (NAN, {1: F([], (-MAX, -TINY), (TINY, MAX))}), only('N'), 'pow(NaN, y) is NaN for y != 0'))
+    # atan2 at a zero first operand (statement of C10/C11: atan2 within 4.5 ulp unless both operands are zero; the sign of
+    # a zero y selects the branch of the cut): decided here because it is a class property
+    POSFIN = F([], None, (TINY, MAX))
+    O.append(('atan2', '-0 over a negative x', (NZ, {1: NEGFIN}), ('negfin',), 'atan2(-0, x < 0) = -pi (a negative finite value)'))
+    O.append(('atan2', '+0 over a negative x', (PZ, {1: NEGFIN}), ('posfin',), 'atan2(+0, x < 0) = +pi (a positive finite value)'))
+    O.append(('atan2', '-0 over a positive x', (NZ, {1: POSFIN}), only('NZ'), 'atan2(-0, x > 0) = -0'))
+    O.append(('atan2', '+0 over a positive x', (PZ, {1: POSFIN}), only('PZ'), 'atan2(+0, x > 0) = +0'))
+    O.append(('atan2', 'negative y over +0', (NEGFIN, {1: PZ}), ('negfin',), 'atan2(y < 0, +0) = -pi/2 (a negative finite value)'))
+    O.append(('atan2', 'positive y over -0', (POSFIN, {1: NZ}), ('posfin',), 'atan2(y > 0, -0) = +pi/2 (a positive finite value)'))
     O.append(('tgamma', 'negative integer', NEGINT, only('N'), 'tgamma at a negative integer is NaN'))
     O.append(('lgamma', 'negative integer', NEGINT, only('PI'), 'lgamma at a negative integer is +inf'))
     return O
